@@ -449,23 +449,29 @@ def realpath_model_check():
 
 def obligations(tier):
     obs = []
-    T = 400 if tier == "quick" else 3000
-    D = 2 if tier == "quick" else 4
+    T = 400 if tier == "quick" else 1500
+    D = 2 if tier == "quick" else 3
+    key = ["read_file", "list_files", "open_parquet_source", "write_file", "delete_file"]
     obs.append(Ob("model.realpath_vs_os", "vf.props.c17:realpath_model_check", {}, engine="native", timeout=300,
                   bounds="FakeOS path resolution vs real os.path.realpath over the grammar (depth <= 3, both root spellings)", weight=1))
-    entries = ENTRY
-    for en in entries:
-        links = (False, True) if (tier == "thorough" or en in ("read_file", "list_files", "open_parquet_source", "write_file", "delete_file")) else (False,)
-        for vl in links:
-            obs.append(Ob(f"entry.{en}.{'link' if vl else 'direct'}", "vf.props.c17:entry", {"entry": en, "via_link": vl, "depth": D, "_must_reach": ["ran"], "_sample_every": 200},
-                          timeout=T, bounds=f"entry point {en}, root {'via symlink' if vl else 'direct'}, every grammar path (8 heads x <= {D} components x 2 separators)",
-                          weight=5))
-    warm_entries = ["read_file", "write_file", "delete_file", "open_parquet_source", "list_files"] if tier == "quick" else ENTRY
-    for en in warm_entries:
-        obs.append(Ob(f"repointed.{en}", "vf.props.c17:entry", {"entry": en, "via_link": False, "depth": 2 if tier == "quick" else 3, "warm": True,
-                                                                 "_must_reach": ["ran"], "_sample_every": 200},
+
+    def entry_ob(en, vl, depth, inc=False):
+        return Ob(f"entry.{en}.{'link' if vl else 'direct'}{'.d4' if depth == 4 else ''}", "vf.props.c17:entry",
+                  {"entry": en, "via_link": vl, "depth": depth, "_must_reach": ["ran"], "_sample_every": 200}, timeout=T,
+                  bounds=f"entry point {en}, root {'via symlink' if vl else 'direct'}, every grammar path (8 heads x <= {depth} components x 2 separators"
+                         f"{'; 4th level over the reduced alphabet' if depth == 4 else ''})", weight=5, allow_inconclusive=inc)
+    for en in ENTRY:
+        obs.append(entry_ob(en, False, D))
+        if en in key:
+            obs.append(entry_ob(en, True, D))
+    if tier == "thorough":
+        # depth 4 (about 33 k paths per entry point): the entry points that read, write and delete
+        for en in ("read_file", "write_file", "delete_file", "open_parquet_source"):
+            obs.append(entry_ob(en, False, 4, inc=True))
+    for en in key:
+        obs.append(Ob(f"repointed.{en}", "vf.props.c17:entry", {"entry": en, "via_link": False, "depth": D, "warm": True, "_must_reach": ["ran"], "_sample_every": 200},
                       timeout=T, bounds=f"entry point {en}: the same handle used the same path once while its components were ordinary directories; "
-                                        f"they are then re-pointed (symlinks leaving the root) and the path is used again; every grammar path", weight=5))
+                                        f"they are then re-pointed (symlinks leaving the root) and the path is used again; every grammar path (depth <= {D})", weight=5))
     for vl in (False, True):
         obs.append(Ob(f"planted_lock.{'link' if vl else 'direct'}", "vf.props.c17:planted_lock", {"via_link": vl, "_must_reach": ["ran"]}, timeout=T,
                       bounds="the table's lock file / lock directory is a dangling symlink leaving the root (4 plants x table exists or not); "
